@@ -88,7 +88,12 @@ fn serialize_cluster_tail(
     raw_data_size: Size,
     ser: &mut Serializer,
 ) -> std::io::Result<()> {
-    let offset_size = needed_bytes(cluster.data_size().into_u64());
+    // Both the stored (maybe compressed) size and the plain size are written with this width.
+    // Incompressible data makes the stored size bigger than the plain one.
+    let offset_size = needed_bytes(std::cmp::max(
+        cluster.data_size().into_u64(),
+        raw_data_size.into_u64(),
+    ));
     let cluster_header = ClusterHeader::new(
         compression.into(),
         offset_size,
